@@ -256,6 +256,45 @@ ASSUMPTIONS = [
 ]
 
 
+NEG_CELLS = ["const_reference = const_reference", "const_reference = reference", "reference{const_reference}",
+             "reference = const_reference (implicit conversion)", "swap(const_reference, const_reference)",
+             "iterator{const_iterator}", "iterator = const_iterator", "reference{const element}", "const_reference = element",
+             "const_reference = rvalue element", "iter_swap(const_iterator, const_iterator)", "const_reference = rvalue const_reference"]
+
+
+def constness_probes(prop, tier):
+    """compile-time half of C11: get<I> on const access paths yields const types (positive cell) and no write through a
+    const access path compiles (negative cells: a cell that compiles is a violation)"""
+    import concurrent.futures as cf
+    import subprocess
+    lists = ["P1", "F3", "V3", "M1"] if tier == "quick" else ALL_LISTS
+
+    def one(job):
+        l, neg = job
+        argv = [C.CXX, "-std=c++17", "-fsyntax-only", "-DNDEBUG", "-I" + C.SRC, "-I" + C.HARNESS, "-DCFG_LIST=%s" % l,
+                os.path.join(C.HARNESS, "constness.cpp")]
+        if neg is not None:
+            argv.append("-DNEG=%d" % neg)
+        p = subprocess.run(argv, stdout=subprocess.PIPE, stderr=subprocess.STDOUT, text=True)
+        return p.returncode, p.stdout
+
+    jobs = [(l, n) for l in lists for n in [None] + list(range(len(NEG_CELLS)))]
+    with cf.ThreadPoolExecutor(max_workers=C.NCPU) as ex:
+        results = list(ex.map(one, jobs))
+    viol = []
+    for (l, n), (rc, log) in zip(jobs, results):
+        if n is None and rc != 0:
+            err = [x for x in log.splitlines() if "error" in x][:1]
+            viol.append({"sig": "%s|constness|types|%s|positive" % (prop, l),
+                         "msg": "const access paths do not yield const types for list %s: %s" % (l, err[0][:200] if err else ""),
+                         "payload": {"engine": "constness.cpp", "list": l, "cell": "positive", "compiler_output": log[-2000:]}})
+        if n is not None and rc == 0:
+            viol.append({"sig": "%s|constness|write-through-const|%s|neg%d" % (prop, l, n),
+                         "msg": "'%s' compiles for list %s: a const access path can be written through" % (NEG_CELLS[n], l),
+                         "payload": {"engine": "constness.cpp", "list": l, "cell": NEG_CELLS[n]}})
+    return len(jobs), viol
+
+
 def run_check(prop, tier):
     t0 = time.time()
     deadline = 150.0 if tier == "quick" else 1500.0
@@ -263,6 +302,14 @@ def run_check(prop, tier):
     cov, violations, internal = collect(prop, tier, runs, t0, deadline)
     cov["bounds"] = {"tier": tier, "runs": len(runs)}
     assumptions = list(ASSUMPTIONS)
+    if prop == "C11" and not internal:
+        ncells, cviol = constness_probes(prop, tier)
+        violations += cviol
+        cov["constness_cells"] = ncells
+        cov["evaluations"] += ncells
+        cov["rule"] += ("; plus compile-time cells per list: one positive cell (get<I>, operator[], iterators on const access paths "
+                        "yield const types) and 12 negative cells (every way of writing through a const_reference, const_iterator or "
+                        "const element must be ill-formed)")
     if prop in ("C02", "C03", "C04", "C05") and not internal:
         from . import layout_checks
         lcov, lviol, linternal = layout_checks.run_layout(prop, tier, t0)
